@@ -27,7 +27,10 @@ impl TokenSet {
     }
 
     pub(crate) const fn contains(&self, kind: SyntaxKind) -> bool {
-        self.0 & mask(kind) != 0
+        // Only the first 128 kinds (all tokens that can be members) fit in the bit-set.
+        // The lexer also hands the parser `VERSION_STRING`, a kind beyond that range,
+        // which is a member of no set.
+        (kind as usize) < 128 && self.0 & mask(kind) != 0
     }
 }
 
